@@ -103,7 +103,12 @@ func (c *cache) flushScheduler() {
 					case <-c.closeCh:
 						return
 					}
-					b = sortedAddrs[i:i]
+					if handledAddr {
+						// the sent batch included addr: the next batch starts after it
+						b = sortedAddrs[i+1 : i+1]
+					} else {
+						b = sortedAddrs[i:i]
+					}
 					bs = 0
 				}
 				if handledAddr {
